@@ -119,6 +119,88 @@ theorem build_sorted (b : Builder) : b.build.Pairwise (fun a b => a.date ≤ b.d
     simp only [Builder.build, List.foldr_cons]
     exact insertDay_sorted d _ ih
 
+/-! ### fan-in -/
+
+theorem fan_run_counts {pf : Bool} {s s' : Fan} {ls : List FanLabel} (h : FanRun pf s ls s') :
+    s'.pending + ls.count .push + ls.count .abandon = s.pending ∧ s'.delivered = s.delivered + ls.count .push ∧
+    s'.draining = s.draining ∧ (s.cancelled = true → s'.cancelled = true) ∧
+    (s'.cancelled = false → ls.count .abandon = 0) := by
+  induction h with
+  | nil => simp
+  | cons l hs _ ih =>
+    obtain ⟨h1, h2, h3, h4, h5⟩ := ih
+    cases l with
+    | push =>
+      simp only [fanStep] at hs
+      split at hs
+      · rename_i hc
+        injection hs with hs; subst hs
+        simp only [List.count_cons] at h1 h2 h3 h4 h5 ⊢
+        refine ⟨by simp at h1 ⊢; omega, by simp at h2 ⊢; omega, h3, h4, by simpa using h5⟩
+      · cases hs
+    | abandon =>
+      simp only [fanStep] at hs
+      split at hs
+      · rename_i hc
+        injection hs with hs; subst hs
+        simp only [List.count_cons] at h1 h2 h3 h4 h5 ⊢
+        refine ⟨by simp at h1 ⊢; omega, by simpa using h2, h3, h4, ?_⟩
+        intro hf
+        have := h4 hc.2
+        rw [hf] at this; cases this
+      · cases hs
+    | cancel =>
+      simp only [fanStep] at hs
+      split at hs
+      · injection hs with hs; subst hs
+        simp only [List.count_cons] at h1 h2 h3 h4 h5 ⊢
+        refine ⟨by simpa using h1, by simpa using h2, h3, fun _ => h4 trivial, ?_⟩
+        intro hf
+        have := h4 trivial
+        rw [hf] at this; cases this
+      · cases hs
+
+theorem fan_no_cancel_after {pf : Bool} {a b : Fan} {ms : List FanLabel} (hrun : FanRun pf a ms b) :
+    a.cancelled = true → ms.count .cancel = 0 := by
+  induction hrun with
+  | nil => intro _; simp
+  | cons l' hs' _ ih' =>
+    intro hcan
+    cases l' with
+    | push =>
+      simp only [fanStep] at hs'; split at hs'
+      · injection hs' with hs'; subst hs'; simpa [List.count_cons] using ih' hcan
+      · cases hs'
+    | abandon =>
+      simp only [fanStep] at hs'; split at hs'
+      · injection hs' with hs'; subst hs'; simpa [List.count_cons] using ih' hcan
+      · cases hs'
+    | cancel =>
+      simp only [fanStep] at hs'; split at hs'
+      · rename_i hc'; rw [hcan] at hc'; cases hc'.2
+      · cases hs'
+
+/-- the context is cancelled at most once -/
+theorem fan_cancel_once {pf : Bool} {s s' : Fan} {ls : List FanLabel} (h : FanRun pf s ls s') : ls.count .cancel ≤ 1 := by
+  induction h with
+  | nil => simp
+  | cons l hs hr ih =>
+    cases l with
+    | push => simpa [List.count_cons] using ih
+    | abandon => simpa [List.count_cons] using ih
+    | cancel =>
+      simp only [fanStep] at hs
+      split at hs
+      · injection hs with hs; subst hs
+        have := fan_no_cancel_after hr rfl
+        simp [this]
+      · cases hs
+
+theorem fan_length (ls : List FanLabel) : ls.length = ls.count .push + ls.count .abandon + ls.count .cancel := by
+  induction ls with
+  | nil => simp
+  | cons l ls ih => cases l <;> simp [ih] <;> omega
+
 /-! ### the census predicate holds for the model's journal, whatever the arrival order -/
 
 theorem sameDirs_iff_perm (e o : List Dir) : sameDirs e o = true ↔ e.Perm o := by
